@@ -1,6 +1,7 @@
 import Driver.Proto
 import MesonModel.DepPolicy.Model
 import MesonModel.DepPolicy.Policy
+import MesonModel.DepPolicy.Register
 import MesonModel.Version.Model
 import MesonModel.DepPolicy.Wrap
 /- driver commands of area `dep`:
@@ -189,6 +190,25 @@ def showPOut : POutcome → String
   | .notFound => "notfound"
   | .error => "error"
 
+def parseRegOp (f : String) : Option (Str × Dep × Option Bool × DefLib × Bool) :=
+  match f.splitOn ":" with
+  | [n, i, fd, ver, st, nat, dl] =>
+    some (decItem n, decDep i fd ver,
+          (match st with | "t" => some true | "f" => some false | _ => none),
+          (match dl with | "static" => DefLib.static | "both" => DefLib.both | _ => DefLib.shared),
+          nat == "1")
+  | _ => none
+
+def showKey (e : Key × Dep × Bool) : String :=
+  (if e.1.native then "B" else "H") ++ "|" ++ encodeStr e.1.name ++ "|" ++
+  (match e.1.static with | none => "n" | some true => "t" | some false => "f") ++ "=" ++ encodeStr e.2.1.ident
+
+def handleReg (f : String) : String :=
+  let ops := ((splitNE "/" f).map (fun g => (splitNE "," g).filterMap parseRegOp)).flatten
+  match registerAll [] ops with
+  | none => "error"
+  | some t => ",".intercalate (sortStrs (t.map showKey))
+
 def handle (cmd : String) (fs : List String) : String :=
   match cmd, fs with
   | "seq", [wm, fff, ov, ca, sy, pr, sp, reqs] =>
@@ -199,6 +219,7 @@ def handle (cmd : String) (fs : List String) : String :=
     let w := parseWorld wm fff ov ca sy pr sp
     let rs := (splitNE "#" reqs).filterMap parseReq
     "#".intercalate ((policySeq sat w rs).map (fun p => showPOut p.1 ++ "~" ++ showWorld p.2))
+  | "reg", [ops] => handleReg ops
   | "wrap", [cfg, env, faults] => W.handleWrap cfg env faults
   | _, _ => "bad-op"
 
